@@ -19,6 +19,7 @@ def run(ctx, chk):
     ownrules.run_rules(ctx, chk, eng)
     from .. import memrules
     memrules.rule_mask_bit_after_copy(ctx, chk, eng)
+    chk.analysed['cleanup_loops'] = ownrules.rule_kill_bound(ctx, chk)
     shared.rule_readonly_inputs(ctx, chk, eng, 'C12')
     shared.positive_examples(ctx, chk, ['static_written'])
     chk.analysed['functions'] = len(ctx.irp.funcs)
